@@ -541,7 +541,10 @@ class TopoModel(Model):
         elif k == 'add_switch':
             t.add_switch(name=ev[1], site=ev[2], nports=2)
         elif k == 'add_switch_service':
-            self.node(ev[1]).add_network_service(name=ev[2], nstype=ServiceType.P4)
+            # its port carries the SAME name as the first port of the switch's own service (names are unique per service,
+            # so this is legal): the switch then owns two interfaces called p1
+            sv = self.node(ev[1]).add_network_service(name=ev[2], nstype=ServiceType.P4)
+            sv.add_interface(name='p1', itype=InterfaceType.DedicatedPort, labels=Labels(local_name='q1'))
         elif k == 'add_facility':
             form = ev[3]
             if form == 'kwargs':
